@@ -9,7 +9,9 @@ import StraxModel.Model.Chunk
     strax/storage/common.py  Saver.save_from / save / close (fixed code: failed executor writes are re-raised),
                              StorageFrontend.find (broken-data check), StorageBackend.loader
   Op alphabet = DESIGN.md Appendix E with `open … w` expanded into truncate / write / close and `rmtree`
-  into listdir + one unlink per entry (order chosen by the scheduler) + rmdir.
+  into listdir + one unlink per entry (order chosen by the scheduler) + rmdir.  Models /repo as it is now:
+  D3 (executor failures re-raised), D26 (close failure recorded) and D12 (broken data moved aside atomically before
+  it is deleted) are fixed; the old behaviours stay available as `Proto` / `HandlerSpec` switches for the witnesses.
 
   The protocol is a small-step machine: the saver thread runs a program (`List Item`), chunk writes are
   `Worker`s (inline for the serial variant, on the executor for the thread-pool variant, "forked copies" for
@@ -249,8 +251,11 @@ deriving DecidableEq, Repr, Inhabited
 
 inductive Item where
   | op (o : Op)                            -- one FS operation of the saver thread with static arguments
-  | rmtreeIf (d : DirId)                   -- `if exists(d): rmtree(d)` after the exists-probe
-  | unlinks (d : DirId)                    -- inside rmtree: one unlink per entry, order chosen by the scheduler
+  | rmtreeIf (d : DirId) (second : Bool)   -- `if exists(d): rmtree(d)` after the exists-probe
+  | moveFinalIf                            -- `if exists(final): rename(final, temp); rmtree(temp)` after the probe
+  | rmList (d : DirId) (second : Bool)     -- inside rmtree: os.listdir / scandir
+  | unlinks (d : DirId) (second : Bool)    -- inside rmtree: one unlink per entry, order chosen by the scheduler
+  | rmRmdir (d : DirId) (second : Bool)    -- inside rmtree: the final rmdir
   | flushOpen (p : Ph) | flushWrite (p : Ph) | flushClose (p : Ph)   -- `_flush_metadata`: open(w) / write(json(md)) / close
   | armed                                  -- FileSaver.__init__ returned: from now on a failure closes the saver
   | append (ci : ChunkInfo)                -- md["chunks"].append(chunk_info)
@@ -331,19 +336,33 @@ def chunksItems (v : Variant) (recheck : Bool) : Nat → List Chunk → List Ite
 def closeItems : List Item :=
   [.waitQuiet, .markClosed, .checkTemp, .collect] ++ flushItems .last ++ [.op (.renameDir .temp .final), .finish]
 
-/-- `FileSaver.__init__` -/
+/-- `FileSaver.__init__`: a stale temp directory is removed; a (broken) final directory is first moved onto the
+temp name atomically and removed there (`second` marks the items of that second rmtree) -/
 def initItems : List Item :=
-  [.op (.existsDir .final), .rmtreeIf .final, .op (.existsDir .temp), .rmtreeIf .temp, .op (.mkdir .temp)]
+  [.op (.existsDir .temp), .rmtreeIf .temp false, .op (.existsDir .final), .moveFinalIf, .op (.mkdir .temp)]
   ++ flushItems .init ++ [.armed]
 
-def saverProg (v : Variant) (recheck : Bool) (cs : List Chunk) : List Item :=
-  initItems ++ chunksItems v recheck 0 cs ++ (if recheck && v != .serial then [.waitAll] else []) ++ closeItems
+/-- `FileSaver.__init__` before the D12 fix: the final directory was deleted in place -/
+def initItemsOld : List Item :=
+  [.op (.existsDir .final), .rmtreeIf .final false, .op (.existsDir .temp), .rmtreeIf .temp false, .op (.mkdir .temp)]
+  ++ flushItems .init ++ [.armed]
+
+/-- which revision of the protocol: `recheck = false` drops done futures unchecked (before the D3 fix),
+`atomicRemove = false` deletes broken data in place (before the D12 fix) -/
+structure Proto where
+  recheck : Bool := true
+  atomicRemove : Bool := true
+deriving DecidableEq, Repr, Inhabited
+
+def saverProg (v : Variant) (pr : Proto) (cs : List Chunk) : List Item :=
+  (if pr.atomicRemove then initItems else initItemsOld) ++ chunksItems v pr.recheck 0 cs
+    ++ (if pr.recheck && v != .serial then [.waitAll] else []) ++ closeItems
 
 def handlerItems (h : HandlerSpec) : List Item :=
   chunksItems h.variant true h.extraStart h.extra ++ closeItems
 
-def initCfg (fs : FS) (v : Variant) (recheck : Bool) (cs : List Chunk) (h : HandlerSpec) : Cfg :=
-  { fs, md := ⟨[], false, false⟩, prog := saverProg v recheck cs, workers := [], term := true, handling := false,
+def initCfg (fs : FS) (v : Variant) (pr : Proto) (cs : List Chunk) (h : HandlerSpec) : Cfg :=
+  { fs, md := ⟨[], false, false⟩, prog := saverProg v pr cs, workers := [], term := true, handling := false,
     out := .running, failed := false, lost := false, spec := h }
 
 /-- the scheduler's choices -/
@@ -401,6 +420,8 @@ def anyFailed (ws : List Worker) : Bool := ws.any (·.st == .failed)
 def headOp (c : Cfg) : Option Op :=
   match c.prog with
   | .op o :: _ => some o
+  | .rmList d _ :: _ => some (.listdir d)
+  | .rmRmdir d _ :: _ => some (.rmdir d)
   | .flushOpen _ :: _ => some (.openTrunc .temp .md)
   | .flushWrite _ :: _ => some (.write .temp .md (.json c.md))
   | .flushClose _ :: _ => some (.close .temp .md)
@@ -415,11 +436,19 @@ def step (c : Cfg) : Act → Option Cfg
     match c.prog with
     | [] => none
     | .op o :: rest => some (c.doOp o rest)
-    | .rmtreeIf d :: rest =>
+    | .rmtreeIf d t :: rest =>
       match c.fs.dir d with
       | none => some { c with prog := rest }
-      | some _ => some { c with prog := .op (.listdir d) :: .unlinks d :: .op (.rmdir d) :: rest }
-    | .unlinks d :: rest =>
+      | some _ => some { c with prog := .rmList d t :: .unlinks d t :: .rmRmdir d t :: rest }
+    | .moveFinalIf :: rest =>
+      match c.fs.final with
+      | none => some { c with prog := rest }
+      | some _ =>
+        some { c with prog := .op (.renameDir .final .temp) :: .rmList .temp true :: .unlinks .temp true
+                                :: .rmRmdir .temp true :: rest }
+    | .rmList d _ :: rest => some (c.doOp (.listdir d) rest)
+    | .rmRmdir d _ :: rest => some (c.doOp (.rmdir d) rest)
+    | .unlinks d _ :: rest =>
       match c.fs.dir d with
       | some (_ :: _) => none                         -- the scheduler must pick an entry (`rm n`)
       | _ => some { c with prog := rest }
@@ -463,7 +492,7 @@ def step (c : Cfg) : Act → Option Cfg
     | _ :: _ => some c.fail
   | .rm n =>
     match c.prog with
-    | .unlinks d :: _ =>
+    | .unlinks d _ :: _ =>
       match c.fs.dir d with
       | some dir =>
         if (dir.get n).isSome then some { c with fs := c.fs.setDir d (some (dir.del n)) } else none
@@ -471,7 +500,7 @@ def step (c : Cfg) : Act → Option Cfg
     | _ => none
   | .rmFail n =>
     match c.prog with
-    | .unlinks d :: _ =>
+    | .unlinks d _ :: _ =>
       match c.fs.dir d with
       | some dir => if (dir.get n).isSome then some c.opFail else none
       | none => none
@@ -570,7 +599,7 @@ def autoAct (o : RmOrder) (c : Cfg) : Option Act :=
   | none =>
     match c.prog with
     | [] => none
-    | .unlinks d :: _ =>
+    | .unlinks d _ :: _ =>
       match c.fs.dir d with
       | some (e :: rest) => (pickRm o (e :: rest)).map .rm
       | _ => some .sav
@@ -581,11 +610,11 @@ def actOp (c : Cfg) : Act → Option Op
   | .abort => none
   | .sav | .savFail =>
     match c.prog with
-    | .unlinks _ :: _ => none
+    | .unlinks _ _ :: _ => none
     | _ => headOp c
   | .rm n | .rmFail n =>
     match c.prog with
-    | .unlinks d :: _ => some (.unlink d n)
+    | .unlinks d _ :: _ => some (.unlink d n)
     | _ => none
   | .wrk k | .wrkFail k => (c.workers[k]?).bind (·.ops.head?)
 
@@ -663,9 +692,9 @@ inductive Result where
 deriving DecidableEq, Repr, Inhabited
 
 /-- one attempt at making the data from file-system state `fs` -/
-def attempt (fs : FS) (v : Variant) (recheck : Bool) (cs : List Chunk) (h : HandlerSpec) (o : RmOrder)
+def attempt (fs : FS) (v : Variant) (pr : Proto) (cs : List Chunk) (h : HandlerSpec) (o : RmOrder)
     (ft : Option Fault) : RunResult × Result :=
-  let c0 := initCfg fs v recheck cs h
+  let c0 := initCfg fs v pr cs h
   match start fs with
   | .stored => (⟨{ c0 with prog := [], out := .success }, [], false⟩, .stored)
   | .corrupted => (⟨{ c0 with prog := [], out := .raised }, [], false⟩, .corrupted)
